@@ -21,7 +21,7 @@ from vf.pyvc import stdlib
 from vf.pyvc.contracts import Contract, Registry
 from vf.pyvc.engine import OutOfSubset
 from vf.pyvc.run import run_contracts
-from vf.pyvc.types import MObj, TBool, TEnum, TObj, TRec, TSeq, TSet, TStr, V
+from vf.pyvc.types import MObj, TBool, TEnum, TInt, TObj, TRec, TSeq, TSet, TStr, V
 
 FACTOR = TRec("Factor", {"expr": TStr}, ["expr"])
 EVAL = TEnum("EvalMethod", ["LITERAL", "LOOKUP", "PYTHON"])
@@ -57,6 +57,26 @@ def n_OrderedSet(eng, args, kw, n, st):
     return stdlib.oset_new(eng, args[0], FACTOR, n, st)
 
 
+LITERAL = z3.Function("is_literal_factor", FACTOR.sort(), z3.BoolSort())
+
+
+def term_degree(eng, args, kw, n, st):
+    """Term.degree: the number of non-literal factors (modelled by: >= 0, <= number of factors, 0 exactly when every factor is a literal)"""
+    t = args[0]
+    fs = t.attrs["factors"] if isinstance(t, MObj) else None
+    if fs is None:
+        raise OutOfSubset(n, "degree of something other than a Term object")
+    th = SQ.theory(FACTOR.sort())
+    d = eng.fresh(st, TInt, "degree")
+    f = z3.Const("dg!f", FACTOR.sort())
+    st.assume(z3.And(d.t >= 0, d.t <= th.Len(fs.t)))
+    st.assume((d.t == 0) == z3.ForAll([f], z3.Implies(th.Has(fs.t, f), LITERAL(f)), patterns=[th.Has(fs.t, f)]))
+    return d
+
+
+term_degree.is_property = True
+
+
 def n_eval_method(eng, args, kw, n, st):
     return eng.fresh(st, EVAL, "eval_method")
 
@@ -75,6 +95,7 @@ REST = "(f in F0 and f.expr not in wrt)"
 def build():
     reg = Registry()
     cs = []
+    reg.methods[("Term", "degree")] = term_degree
     # Factor.eval_method on the quotient: unspecified
     reg.add(Contract("Factor.eval_method", params={"self": "Factor"}, returns=EVAL, is_property=True, trusted=True,
                      notes="eval_method is not a function of the Factor quotient (A-eq): unspecified"), as_method=("Factor", "eval_method"))
